@@ -161,6 +161,50 @@ func tryPartial(env Env, nodes []ast.IsNode,
 	mkEval func(values []types.Value) Evaler,
 	mkNode func(nodes []ast.IsNode) ast.IsNode,
 ) (ast.IsNode, error) {
+	return tryPartialP(env, false, nodes, mkEval, mkNode)
+}
+
+// hasMarker reports whether v is, or contains at any depth, a value for which is returns true.
+func hasMarker(v types.Value, is func(types.Value) bool) bool {
+	switch t := v.(type) {
+	case types.EntityUID:
+		return is(t)
+	case types.Record:
+		for vv := range t.Values() {
+			if hasMarker(vv, is) {
+				return true
+			}
+		}
+	case types.Set:
+		for vv := range t.All() {
+			if hasMarker(vv, is) {
+				return true
+			}
+		}
+	}
+	return false
+}
+
+// residualOperand is used for the operands that partialIfThenElse, partialAnd and partialOr embed in a
+// residual node: a constant that still contains an unknown must not be embedded, because the
+// snapshot would still hold the marker after the unknown is bound.
+func residualOperand(n ast.IsNode, orig ast.IsNode) (ast.IsNode, error) {
+	if v, ok := n.(ast.NodeValue); ok {
+		if hasMarker(v.Value, IsIgnore) {
+			return nil, errIgnore
+		} else if hasMarker(v.Value, IsVariable) {
+			return orig, nil
+		}
+	}
+	return n, nil
+}
+
+// tryPartialP is tryPartial; projection is true for the operators that only look into their operand
+// (attribute access and has), which may therefore consume a value that still contains unknowns.
+func tryPartialP(env Env, projection bool, nodes []ast.IsNode,
+	mkEval func(values []types.Value) Evaler,
+	mkNode func(nodes []ast.IsNode) ast.IsNode,
+) (ast.IsNode, error) {
 	var values []types.Value
 	orig := slices.Clone(nodes)
 	ok := true
@@ -172,14 +216,23 @@ func tryPartial(env Env, nodes []ast.IsNode,
 		} else if err != nil {
 			return nil, err
 		}
-		nodes[i] = n
-		if !ok {
-			continue
-		}
 		if v, vok := n.(ast.NodeValue); vok {
-			values = append(values, v.Value)
+			if !projection {
+				// A value that still contains an unknown can only be looked into, never consumed whole.
+				if hasMarker(v.Value, IsIgnore) {
+					return nil, errIgnore
+				} else if hasMarker(v.Value, IsVariable) {
+					ok = false
+					continue
+				}
+			}
+			nodes[i] = n
+			if ok {
+				values = append(values, v.Value)
+			}
 			continue
 		}
+		nodes[i] = n
 		ok = false
 	}
 	if ok {
@@ -216,7 +269,7 @@ func tryPartialUnary(env Env, v ast.UnaryNode, mkEval func(a Evaler) Evaler, wra
 func partial(env Env, n ast.IsNode) (ast.IsNode, error) {
 	switch v := n.(type) {
 	case ast.NodeTypeAccess:
-		return tryPartial(env,
+		return tryPartialP(env, true,
 			[]ast.IsNode{v.Arg},
 			func(values []types.Value) Evaler {
 				return newAttributeAccessEval(newLiteralEval(values[0]), v.Value)
@@ -226,7 +279,7 @@ func partial(env Env, n ast.IsNode) (ast.IsNode, error) {
 			},
 		)
 	case ast.NodeTypeHas:
-		return tryPartial(env,
+		return tryPartialP(env, true,
 			[]ast.IsNode{v.Arg},
 			func(values []types.Value) Evaler {
 				return newPartialHasEval(newLiteralEval(values[0]), v.Value)
@@ -443,12 +496,16 @@ func partialIfThenElse(env Env, v ast.NodeTypeIfThenElse) (ast.IsNode, error) {
 		return nil, thenErr
 	} else if thenErr != nil && !errors.Is(thenErr, errVariable) {
 		thenNode = extError(thenErr)
+	} else if thenNode, thenErr = residualOperand(thenNode, v.Then); thenErr != nil {
+		return nil, thenErr
 	}
 	elseNode, elseErr := partial(env, v.Else)
 	if errors.Is(elseErr, errIgnore) {
 		return nil, elseErr
 	} else if elseErr != nil && !errors.Is(elseErr, errVariable) {
 		elseNode = extError(elseErr)
+	} else if elseNode, elseErr = residualOperand(elseNode, v.Else); elseErr != nil {
+		return nil, elseErr
 	}
 	return ast.NodeTypeIfThenElse{If: ifNode, Then: thenNode, Else: elseNode}, nil
 }
@@ -475,6 +532,8 @@ func partialAnd(env Env, v ast.NodeTypeAnd) (ast.IsNode, error) {
 		return nil, rightErr
 	} else if rightErr != nil && !errors.Is(rightErr, errVariable) {
 		right = extError(rightErr)
+	} else if right, rightErr = residualOperand(right, v.Right); rightErr != nil {
+		return nil, rightErr
 	}
 	return ast.NodeTypeAnd{BinaryNode: ast.BinaryNode{Left: left, Right: right}}, nil
 }
@@ -501,6 +560,8 @@ func partialOr(env Env, v ast.NodeTypeOr) (ast.IsNode, error) {
 		return nil, rightErr
 	} else if rightErr != nil && !errors.Is(rightErr, errVariable) {
 		right = extError(rightErr)
+	} else if right, rightErr = residualOperand(right, v.Right); rightErr != nil {
+		return nil, rightErr
 	}
 	return ast.NodeTypeOr{BinaryNode: ast.BinaryNode{Left: left, Right: right}}, nil
 }
